@@ -1,20 +1,23 @@
 import N2k.Driver.Core
 import N2k.Driver.Pgn
+import N2k.Driver.Dec
 open N2k.Driver
 
-partial def loop (h : IO.FS.Stream) (out : IO.FS.Stream) : IO Unit := do
+partial def loop (h : IO.FS.Stream) (out : IO.FS.Stream) (insts : DecInsts) : IO Unit := do
   let line ← h.getLine
   if line.isEmpty then return ()
   let toks := (line.trimAscii.toString.splitOn " ").filter (· ≠ "")
-  let resp := match handleBasic toks with
-    | some r => r
+  let (insts', resp) := match handleBasic toks with
+    | some r => (insts, r)
     | none => match handlePgn toks with
-      | some r => r
-      | none => "bad-op"
+      | some r => (insts, r)
+      | none => match handleDec insts toks with
+        | some (i', r) => (i', r)
+        | none => (insts, "bad-op")
   out.putStrLn resp
-  loop h out
+  loop h out insts'
 
 def main : IO Unit := do
   let stdin ← IO.getStdin
   let stdout ← IO.getStdout
-  loop stdin stdout
+  loop stdin stdout []
